@@ -148,12 +148,13 @@ class _FakePopen(object):
         self.stdout = b""
         self.stderr = b""
         self.is_latex = command[0] in ("fakelatex", "pdflatex")
-        ok, fin = _State.sched.get(command[1], (True, 0)) if command[0] == "fakelatex" else (True, 0)
+        tex = command[1] if command[0] == "fakelatex" else command[-1]
+        ok, fin = _State.sched.get(tex, (True, 0)) if self.is_latex else (True, 0)
         self.polls_left = fin
         if ok:
             self._rc = self._run(list(command))
         else:
-            _State.log.append(["latex", command[1]])      # launched; the command fails and writes nothing
+            _State.log.append(["latex", tex])      # launched; the command fails and writes nothing
             self._rc = 1
         self.returncode = self._rc if fin == 0 else None
 
